@@ -34,11 +34,12 @@ for p in props:
                               'Runtime monitoring (%s): the real functions of the working tree are executed on generated, boundary '
                               'and hostile workloads (incl. sequences that repeat a call with one configuration element changed, and the '
                               'same call delivered in other ways: int / numpy / float-subclass numbers, other array layouts and dtypes, '
-                              'keywords and left-out defaults, other containers, shards in other time zones and working directories) and '
+                              'keywords and left-out defaults, other containers, shards in other time zones / hash seeds / decimal contexts / '
+                              'working directories, a twin call injected at a statement boundary inside a share of the judged calls) and '
                               'every observed execution is judged by a monitor against an independent executable oracle. The verdict '
                               'is "held on the executions observed" (counts, class buckets, samples and max error/tolerance are in '
                               'the evidence), nothing more; inconclusive (exit 2) when a deciding monitor saw nothing. Workload and '
-                              'oracle: %s' % (m.TITLE, m.RULE[:600])),
+                              'oracle: %s' % (m.TITLE, m.RULE[:520])),
                           'design_ref': 'DESIGN.md section 4 (%s)' % pid},
         'level_note': getattr(m, 'LEVEL_NOTE', '; '.join(m.ASSUMPTIONS)),
         'technique': getattr(m, 'TECHNIQUE', 'runtime monitoring: post-condition monitors with an independent reference oracle over generated workloads'),
